@@ -87,3 +87,7 @@ C('C23', 'determinism across fresh processes/hash seeds (sha256 of generated byt
 C('C30', 'fuzzing with an exception-class oracle (Python parser) and ASan/UBSan + crash monitoring (C parser via typeof on compiled FFIs) plus a libFuzzer target on parse_c_type.c rebuilt from the tree',
   'Exploration: grammar-generated declarations and type strings, token-level and byte-level mutants, cffi-specific trivia; Python side: any exception outside the documented set is a violation keyed by (type, raising function); C side: 40k type strings on empty and populated contexts under ASan/UBSan, inputs around the 1200-opcode and recursion limits, lone surrogates; libFuzzer 8 s (120 s thorough).',
   'Resource blow-ups (MemoryError, RecursionError, watchdog) are counted separately, not judged. 13 recorded findings: non-cffi exception classes escaping from specific sites.')
+
+C('C07', 'differential oracle (in-line pycparser-based parser vs C parser of an emitted module with the same declarations); disagreements classified by syntactic repairs re-tested on the real parsers and by gcc -fsyntax-only as independent well-formedness oracle',
+  'Exploration: per random declaration context ~700 grammar-generated type strings (specifier permutations, qualifiers anywhere, number bases, named constants, function pointers with names/varargs/calling conventions, redundant grouping) and token-level near-miss mutants; both reject or both accept with the same meaning (object identity for non-aggregates).',
+  'Undeclared tags are not generated; exception classes are C30\'s business. 17 recorded finding classes: the two parsers accept different supersets of the common grammar; a disagreement on a well-formed generated string that no recorded syntactic class explains is still a violation.')
